@@ -1993,7 +1993,9 @@ class Backend:
                         subdir = os.path.join('{mandir}', 'man' + num)
                 fname = f.fname
                 if m.locale: # strip locale from file name
-                    fname = fname.replace(f'.{m.locale}', '')
+                    suffix = f'.{m.locale}.{num}'
+                    if fname.endswith(suffix):
+                        fname = fname[:-len(suffix)] + f'.{num}'
                 srcabs = f.absolute_path(self.environment.get_source_dir(), self.environment.get_build_dir())
                 dstname = os.path.join(subdir, os.path.basename(fname))
                 dstabs = dstname.replace('{mandir}', manroot)
